@@ -64,8 +64,11 @@ STUBS = [
     "fault-free re-run of the same scenario as the bystander reference (harness)",
 ]
 ASSUMPTIONS = [
-    "windows are half-open [start, end); anything that happens exactly at a window boundary instant is not judged "
-    "(same-instant order against the fault event is a tie the statement leaves open)",
+    "windows are exactly half-open [start, end): the repo creates every fault event while the Simulation is constructed and "
+    "all judged traffic is created afterwards (scheduled after construction or emitted in-run), so by the engine's "
+    "FIFO-by-creation tie rule an observation stamped t == end must see the fault gone (a job is handled, a probe delivered) "
+    "and one stamped t == start must see it in effect; the only instant not judged is the link/partition/capacity state "
+    "sampled right after a fault event that shares its instant with another fault edge",
     "a paused/crashed target drops the events delivered to it (the repo's documented crash semantics); 'processing "
     "resumes' is judged only on events delivered after the last covering window ended",
     "overlapping InjectLatency windows: the delay must be >= base + the largest active extra (not the sum); overlapping "
@@ -80,6 +83,9 @@ ASSUMPTIONS = [
     "the fault-free comparison (they draw from the module-level random stream, whose consumption legitimately changes)",
     "cancel 'before activation' covers: before Simulation construction, after construction before run, and from an "
     "event during the run that precedes the activation instant; cancelling after activation is not specified and not generated",
+    "link and sink display names are not identifiers (same_names variant gives all links one name); entities, resources and "
+    "networks that faults address by name keep unique names, because with duplicates FaultContext resolves to the last "
+    "registered object and the statement does not say which one is the target",
     "FaultStats.faults_activated/faults_deactivated (never incremented in the repo) are outside the statement and not judged",
 ]
 EXPECTED_PROBES = [
@@ -91,8 +97,12 @@ EXPECTED_PROBES = [
     "probe.job_after_window_end", "probe.probe_dropped_by_partition", "probe.probe_dropped_by_loss",
     "probe.latency_added_observed", "probe.asym_reverse_delivered", "probe.cancel_before_construction",
     "probe.cancel_after_construction", "probe.cancel_during_run", "probe.capacity_window_with_grants_held",
-    "probe.resource_waiter", "probe.permanent_crash", "probe.window_past_horizon", "probe.activity_on_boundary",
-    "probe.job_on_boundary", "probe.probe_sent_on_boundary", "probe.target_matches_twin_outside_windows",
+    "probe.resource_waiter", "probe.permanent_crash", "probe.window_past_horizon",
+    "probe.boundary_exact.activity", "probe.boundary_exact.job", "probe.boundary_exact.probe", "probe.boundary_exact.grant",
+    "probe.boundary_exact.state_checked", "probe.boundary_exact.job_due_at_window_end",
+    "probe.boundary_exact.job_dropped_at_window_start", "probe.boundary_exact.probe_delivered_sent_at_heal_instant",
+    "probe.boundary_exact.probe_dropped_sent_at_partition_start", "probe.same_names.latency_windows_overlap_across_links",
+    "probe.target_matches_twin_outside_windows",
     "probe.bystanders_equal_fault_free_run",
     # reachable since the fixes of checks/c06.fixed.json were committed
     "probe.inflight_process_killed_by_down_window", "probe.killed_holder_leaves_grant_outstanding",
@@ -172,7 +182,11 @@ def gen(rng, tier):
     sc["end_ms"] = end_ms
     end_us = end_ms * 1000
     sc["tick_us"] = max(50_000, end_us // 25)
-    sc["edge_jobs"] = rng.random() < 0.15
+    # extra jobs / probes stamped exactly on window boundaries (judged: windows are exactly half-open);
+    # "relay": half of them are emitted in-run by another entity some time before they are due
+    sc["edge_jobs"] = rng.choice((False, False, False, True, True, "relay", "relay"))
+    # display names are not identifiers: all links of both networks are called "dc", all sinks "sink"
+    sc["same_names"] = rng.random() < 0.35
 
     # ---- nodes
     kinds = ["plain"]
@@ -237,6 +251,11 @@ def gen(rng, tier):
             k = rng.choice(faults)["kind"]      # same kind again: makes overlapping windows on one key likely
         elif only in ("capbusy", "capoverlap") and rng.random() < 0.6:
             k = "capacity"
+        pair = None
+        if sc["same_names"] and faults and faults[-1]["kind"] in ("latency", "loss") and len(net["links"]) > 1 \
+                and rng.random() < 0.6:
+            pair = faults[-1]            # same kind on a *different* (namesake) link, overlapping window
+            k = pair["kind"]
         f = {"kind": k}
         allow_overlap = k != "capacity" or "capoverlap" in allow
         if k in ("crash", "pause"):
@@ -261,7 +280,9 @@ def gen(rng, tier):
             g = ("part",)
         else:
             l = rng.choice(net["links"])
-            if allow_overlap and faults and rng.random() < 0.6:
+            if pair is not None:
+                l = rng.choice([x for x in net["links"] if [x["a"], x["b"]] != pair["link"]])
+            elif allow_overlap and faults and rng.random() < 0.6:
                 same = [x for x in faults if x["kind"] == k]
                 if same:
                     l = {"a": same[0]["link"][0], "b": same[0]["link"][1]}
@@ -272,7 +293,10 @@ def gen(rng, tier):
             else:
                 f["rate"] = rng.choice((1.0, 1.0, 1.0, 0.5))
             g = (k, l["a"], l["b"])
-        win = _pick_window(rng, end_ms, groups.get(g, []), allow_overlap, permanent_ok=(k == "crash"))
+        grp = groups.get(g, [])
+        if pair is not None:
+            grp = [(pair["start_ms"], pair["end_ms"])] * 4 + grp   # overlap the namesake link's window
+        win = _pick_window(rng, end_ms, grp, allow_overlap, permanent_ok=(k == "crash"))
         if win is None:
             continue
         f["start_ms"], f["end_ms"] = win
@@ -308,7 +332,7 @@ def gen(rng, tier):
             n["co_hold_us"] = int(n["co_period_us"] * rng.choice((0.4, 0.9, 1.6)))
         else:
             # avoidance: nothing is ever held at a window start and nobody ever waits
-            wait_regime = rng.random() < 0.5
+            wait_regime = rng.random() < 0.5 and len(cf) == 1   # one window: its backlog cannot reach another window's start
             if lim < 2 and not wait_regime:
                 for f in cf:
                     faults.remove(f)
@@ -381,6 +405,18 @@ def _static_probes(w: FaultWorld, c: dict) -> None:
                     c["probe.queue_backlog_at_down_start"] = 1
 
 
+def _same_name_probes(w: FaultWorld, c: dict) -> None:
+    if not w.sc.get("same_names"):
+        return
+    for kind in ("lat", "loss"):
+        keys = [k for k in w.tl.w if k[0] == kind]
+        for i, k1 in enumerate(keys):
+            for k2 in keys[i + 1:]:
+                if any(a[0] < b[1] and b[0] < a[1] for a in w.tl.w[k1] for b in w.tl.w[k2]):
+                    c["probe.same_names.latency_windows_overlap_across_links" if kind == "lat"
+                      else "probe.same_names.loss_windows_overlap_across_links"] = 1
+
+
 def _restore_probes(w: FaultWorld, c: dict) -> None:
     for key, ws in w.tl.w.items():
         if key[0] != "cap":
@@ -447,6 +483,7 @@ def run(sc):
             counters["probe.bystanders_equal_fault_free_run"] = 1
     _static_probes(w, counters)
     _restore_probes(w, counters)
+    _same_name_probes(w, counters)
     if status == "ok" and sig is None and any(f.get("cancel") == "pre" for f in sc["faults"]):
         counters["probe.cancel_before_construction_left_no_trace"] = 1
     h = hashlib.blake2b(digest_size=12)
